@@ -81,12 +81,13 @@ def _obj_kwargs(case):
 
 @guarded('C01')
 def run_rejection(case):
+    """One Rejection object; case['obj'] is one objective, or case['objs'] a sequence of objectives run one after
+    the other on the SAME sampler object (every run of the sequence is judged)."""
     import elfi
     models.native_client()
     models.reset_calls()
     m, dname, extras = models.build(case['model'])
-    bs, n, seed = case['bs'], case['n_samples'], case['seed']
-    form = case['obj'][0]
+    bs, seed = case['bs'], case['seed']
     rej = elfi.Rejection(m, dname, output_names=list(extras), batch_size=bs, seed=seed, max_parallel_batches=1)
     names = list(rej.output_names)
 
@@ -98,11 +99,29 @@ def run_rejection(case):
             raise Horizon()
         return orig_update(batch, batch_index)
     rej.update = update
-    try:
-        res = rej.sample(n, bar=False, **_obj_kwargs(case))
-    except Horizon:
-        return ok(outcome='horizon', trivial=True, horizon=1)
-    calls = models.CALLS.get('sim', 0)
+    objs = case.get('objs') or [case['obj']]
+    ns = case.get('ns') or [case['n_samples']] * len(objs)
+    last = None
+    for k, (obj, n) in enumerate(zip(objs, ns)):
+        sub = dict(case, obj=obj, n_samples=n)
+        before = models.CALLS.get('sim', 0)
+        try:
+            res = rej.sample(n, bar=False, **_obj_kwargs(sub))
+        except Horizon:
+            return ok(outcome='horizon', trivial=True, horizon=1)
+        calls = models.CALLS.get('sim', 0) - before
+        r = _judge_run(sub, res, calls, m, names, dname, bs, n, seed)
+        if r.get('viol'):
+            if len(objs) > 1:
+                r['viol']['sig'] = r['viol']['sig'] + (':on-reused-sampler' if k > 0 else '')
+                r['viol']['detail'] = dict(r['viol'].get('detail') or {}, run_index=k, objectives=objs)
+            return r
+        last = r
+    return last
+
+
+def _judge_run(case, res, calls, m, names, dname, bs, n, seed):
+    form = case['obj'][0]
     info = {'calls': calls, 'n_sim': int(res.n_sim), 'threshold': float(np.asarray(res.threshold).ravel()[-1])}
 
     # counts
@@ -228,6 +247,19 @@ def run(ctx):
                     for s in seeds:
                         cases.append({'kind': 'rej', 'model': model, 'bs': bs, 'n_samples': n, 'obj': obj, 'seed': s})
     ctx.run_cases(run_rejection, cases, 'rejection', sample_every=max(1, len(cases) // 6))
+    # the same sampler object used for several runs: every sequence of objectives up to a depth
+    alph = [['threshold', 1], ['threshold', 0], ['n_sim', 7], ['n_sim', 4], ['quantile', '1/2'], ['quantile', '1/4']]
+    import itertools
+    hcases = []
+    for model in ('M1', 'M2') if q else ('M1', 'M2', 'Minf', 'Mcol'):
+        halph = [o if not (model == 'M2' and o[0] == 'threshold') else ['threshold', 2 + o[1]] for o in alph]
+        for bs in (1, 3):
+            for L in (2,) if q else (2, 3):
+                for seq in itertools.product(halph, repeat=L):
+                    for s in seeds[:1] if q else seeds[:2]:
+                        hcases.append({'kind': 'rej', 'model': model, 'bs': bs, 'n_samples': 2, 'ns': [2, 3, 2][:L],
+                                       'objs': [list(o) for o in seq], 'seed': s})
+    ctx.run_cases(run_rejection, hcases, 'reused-sampler', sample_every=max(1, len(hcases) // 3))
     cases = [{'kind': 'adaptive', 'bs': bs, 'n_samples': n, 'n_sim': ns, 'seed': s}
              for bs in (1, 2, 3) for n in (2, 3, 5) for ns in (6, 9, 10) for s in seeds if ns >= n]
     ctx.run_cases(run_adaptive, cases, 'adaptive')
@@ -241,4 +273,6 @@ def run(ctx):
         'budget forms require budget >= n_samples; threshold runs longer than %d batches are counted as horizon' % HORIZON,
         'quantile budget ceil(n_samples/quantile) accepted in exact-rational and in float reading',
         'ties: only multisets and row membership are compared, never positions',
+        'reused-sampler section: every sequence of 2 (3 thorough) objectives over {two thresholds, two n_sim budgets, two '
+        'quantiles} on one Rejection object, n_samples varying between the runs; each run judged like a fresh one',
     ]
